@@ -621,6 +621,8 @@ def check_br_case(case):
     # operator), masked by the secular condition
     mask = secular_mask(case["K"], case["cut"], n)
     sig = classify_br(d, A, S, n, mask)
+    if sig is None and not np.array_equal(d, doc_tensor(A, A, case["S"], case["K"], case["cut"])):
+        sig = "differs-from-documented-R_abcd"
     if sig is not None:
         bad.append(("brtensor.element-index", sig,
                     "the Bloch-Redfield tensor does not act on the column-stacked "
@@ -803,6 +805,63 @@ def check_cross_matmul(case):
     return bad
 
 
+def doc_tensor(A, B, S, K, cut, colstack=True):
+    """R_abcd of the documentation (alpha = A, beta = B), written as loops,
+    placed at the column-stacked indices (rho_ab lives at a + n*b) or, for
+    classification, at the row-major ones."""
+    n = A.shape[0]
+    R = np.zeros((n * n, n * n), dtype=complex)
+    for a, b, c, d in itertools.product(range(n), repeat=4):
+        if cut is not None and not abs(K[a][b] - K[c][d]) < cut:
+            continue
+        e = 0
+        if b == d:
+            e += sum(A[a, k] * B[k, c] * S[c][k] for k in range(n))
+        e -= B[a, c] * A[d, b] * S[c][a]
+        if a == c:
+            e += sum(A[d, k] * B[k, b] * S[d][k] for k in range(n))
+        e -= B[a, c] * A[d, b] * S[d][b]
+        if colstack:
+            R[a + n * b, c + n * d] = -0.5 * e
+        else:
+            R[a * n + b, c * n + d] = -0.5 * e
+    return R
+
+
+def check_cterm_case(case):
+    """the three cross-term kernels against each other and against the
+    documented R_abcd (loop form, independent of br_ref)."""
+    from qutip.core import data as _data
+    from qutip.core._brtensor import _br_cterm_dense, _br_cterm_sparse, _br_cterm_data
+    bad = []
+    n = case["n"]
+    A = mat_unjson(case["A"])
+    B = mat_unjson(case["B"])
+    S = np.array(case["S"], dtype=float)
+    K = np.array(case["K"], dtype=float)
+    cut = np.inf if case["cut"] is None else float(case["cut"])
+    try:
+        outs = [f(_data.Dense(A), _data.Dense(B), S.copy(), K.copy(), cut).to_array()
+                for f in (_br_cterm_dense, _br_cterm_sparse, _br_cterm_data)]
+    except Exception as ex:      # noqa: BLE001
+        return [("brtensor.br_cterm", "raises:" + type(ex).__name__,
+                 "_br_cterm_* raised %r" % (ex,))]
+    if not (np.array_equal(outs[0], outs[1]) and np.array_equal(outs[0], outs[2])):
+        bad.append(("brtensor.br_cterm", "kernels-disagree",
+                    "_br_cterm_dense/_sparse/_data disagree"))
+    ref = doc_tensor(A, B, case["S"], case["K"], case["cut"])
+    if not np.array_equal(outs[0], ref):
+        rowmajor = doc_tensor(A, B, case["S"], case["K"], case["cut"], colstack=False)
+        sig = ("tensor-of-transposed-operator" if np.array_equal(outs[0], rowmajor)
+               else "differs-from-documented-expression")
+        bad.append(("brtensor.element-index", sig,
+                    "the Bloch-Redfield cross-term tensor is not the documented R_abcd at "
+                    "the column-stacked indices"
+                    + (" (it is stored at the row-major index a*n+b)"
+                       if sig.startswith("tensor-of") else "")))
+    return bad
+
+
 def gen_cross_case(rng):
     n = rng.choice([2, 3])
     return {"n": n, "w": rng.sample(range(-3, 6), n),
@@ -861,6 +920,9 @@ def run_br_correspondence(ctx, rng, n_br, dist):
         problems, d = check_br_case(case)
         report(ctx, problems, {"br_term": case})
         impls.append(d)
+        if "B" not in case:
+            case["B"] = mat_json(rand_mat(rng, case["n"], case["n"], "any"))
+        report(ctx, check_cterm_case(case), {"br_cterm": case})
     try:
         vals = vlib.coq_eval_values("cases_C07br", HEADER_BR,
                                     [br_coq_expr(c) for c in cases], chunk=40)
@@ -959,7 +1021,14 @@ def run(ctx):
     def search(failed, log):
         oracle_all(0.5)
 
+    nviol = len(ctx.violations)
     ok = vlib.standard_proof_step(ctx, ["Props/C07.vo"], ["Props/C07.v"], search)
+    if not ok and len(ctx.violations) == nviol:
+        # the search met only listed findings: the broken proof must still fail the run
+        ctx.violation("proof:C07", "theorems-no-longer-check",
+                      "the theorems of Props/C07.v no longer check against the terms "
+                      "generated from the current source, and the oracle found no unlisted "
+                      "failing input", {"props": "Props/C07.v"}, found_input=False)
 
     # ---- oracle + correspondences (always)
     dist = oracle_all()
@@ -992,6 +1061,8 @@ def replay(ctx, payload):
         report(ctx, small_case(d["small"], tx.Eval(terms, expi_exact)), d)
     if "br_term" in d:
         report(ctx, check_br_case(d["br_term"])[0], d)
+    if "br_cterm" in d:
+        report(ctx, check_cterm_case(d["br_cterm"]), d)
     if "bloch_redfield_tensor" in d:
         report(ctx, check_brt_case(d["bloch_redfield_tensor"]), d)
     if "br_matmul" in d:
